@@ -352,7 +352,7 @@ def _selections(ctx) -> None:
                 if len(lps) == 1 and gi.loops[lps[0]].iter == gcols and e.conds == o.conds and e.value[0] == "sub" \
                         and e.value[1] == ("elem", gcols, lps[0]):
                     n_rows += 1
-    ctx.ob("h.table-selections", g, "row-selection", n_rows >= 4, f"{n_rows} row selections index each column (name kept by Vector.__getitem__)",
+    ctx.ob("h.table-selections", g, "row-selection", n_rows >= 1, f"{n_rows} row selections index each column (name kept by Vector.__getitem__)",
            g.node, message="row selections no longer index each column with the key (which keeps the column's name)")
 
 
